@@ -16,12 +16,22 @@ from quara.objects.mprocess import MProcess
 from quara.settings import Settings
 
 LEAN_EXTRA_SOURCES = ("C04Psd.lean", "C04Ineq.lean", "Psd.lean")
+LEAN_EXTRA_TARGETS = ("QGen.C04",)
+
+
+def translate(ctx):
+    """regenerate lean/QGen/C04.lean (element / slice assignments of the State and Gate equality projections) from /repo"""
+    import c04_translate
+    return c04_translate.translate()
+
 PARTIAL = [
     {"theorem": "projIneqCore_spec_partial, gate_projIneq_spec_partial, projIneqCore_idem_spec_partial, projIneqCore_fix_partial, "
                 "blocks_nearest_partial (and the general-family versions projIneqCore_{feasible,vi,nearest,idem}_partial with hspan)",
      "missing": "proved for an exact eigh result (U unitary, U diag(lam) U^H = operator of the input) and eps_truncate_imaginary_part = 0; "
                 "projIneqCore_eps_partial bounds the effect of eps > 0 in exact arithmetic (no raise, every coordinate moves by < eps); float "
                 "accuracy of eigh and the rounding-level imaginary residue that makes the real code raise at scale ~1e3 (D13) are not covered. "
+                "The imaginary-part guard is characterised exactly (truncate_ok_iff / truncate_raises_iff / truncate_perturbed: absolute "
+                "threshold, finding D13). The hypotheses on the basis are proved for the normalised Pauli basis (pauli_orthoN, pauli_hermB). "
                 "Basis completeness is no longer a hypothesis (derived from orthonormality + Hermiticity + count d^2; the harness re-checks "
                 "these three numerically for every system it uses)"},
 ]
@@ -89,6 +99,11 @@ def system(kind):
         if len(B) != c.dim ** 2 or np.max(np.abs(G - np.eye(len(B)))) > 1e-12 or \
                 max(float(np.max(np.abs(b - b.conj().T))) for b in B) > 1e-14:
             raise RuntimeError(f"basis of system {kind!r} is not an orthonormal Hermitian family of d^2 matrices")
+        if kind == "q":
+            # the qubit basis quara ships is the one QProofs.C04Ineq.pauliB formalises (sigma_a / sqrt 2, order I X Y Z)
+            sig = [np.eye(2), np.array([[0, 1], [1, 0]]), np.array([[0, -1j], [1j, 0]]), np.array([[1, 0], [0, -1]])]
+            if max(float(np.max(np.abs(b - s_ / np.sqrt(2)))) for b, s_ in zip(B, sig)) > 1e-15:
+                raise RuntimeError("normalised Pauli basis differs from the formalised one")
         _SYS[kind] = (c, B)
     return _SYS[kind]
 
@@ -414,7 +429,11 @@ def call_site(typ, c, which, site, flag, x, m, tap=False):
     phys = site.endswith("-phys")
     site = site_base(site)
     if phys:
-        holder = physical_host(typ, c, m, hflag)
+        try:
+            holder = physical_host(typ, c, m, hflag)
+        except Exception as e:  # noqa  (a physical object, by the independent reference, is rejected by the constructor)
+            v0 = to_var(typ, c, x, flag)
+            return dict(err="physical-host-" + err_kind(e), msg=str(e)[:200], result=None, eigh=[], arg_before=v0, arg_after=v0.copy())
     else:
         holder = make(typ, c, of_var(typ, c, to_var(typ, c, x, flag), flag) if site != "obj" else x, hflag)
     if site == "obj":
